@@ -112,7 +112,19 @@ def attr_coverage_task(T, solver):
             if st.targets[0].id == '_penalty_required_attr':
                 declared['penalty'] = _const_tuple(st.value)
     csrc = ast.unparse(checks[0]) if checks else ''
-    sparse_checked = 'support_sparse' in csrc
+    # the sparse-suffix check must be performed on EVERY normal path through custom_checks: a top-level statement of the body
+    # `check_attrs(datafit, ..., support_sparse=<issparse(X)>)` with no `return` anywhere before it (a check that only runs for
+    # one ws_strategy / one option lets the other configurations through to the compiled kernels)
+    sparse_checked = False
+    if checks:
+        for st in checks[0].body:
+            if any(isinstance(n, ast.Return) for n in ast.walk(st)):
+                break
+            if isinstance(st, ast.Expr) and isinstance(st.value, ast.Call) and ast.unparse(st.value.func) == 'check_attrs' \
+                    and any(k.arg == 'support_sparse' and 'issparse(X)' in ast.unparse(k.value) for k in st.value.keywords) \
+                    and st.value.args and ast.unparse(st.value.args[0]) == 'datafit':
+                sparse_checked = True
+                break
     group_checked = {'datafit': 'check_group_compatible(datafit)' in csrc, 'penalty': 'check_group_compatible(penalty)' in csrc}
     refuses_datafit = 'datafit is not None' in csrc
     # reachable functions
